@@ -646,7 +646,83 @@ func c04FaultyDecoder() string {
 	return ""
 }
 
+// c04Overlap: two decodes overlap in time - the decoder of an application-defined data type, met at
+// the innermost position of message A (nested 1, 40, 300 groups deep), decodes message B (nested
+// likewise) before it returns, as a second connection's reader would at that instant. Where one
+// message's AVPs begin and end does not depend on what else is being decoded: both come out whole.
+var c04Reenter func()
+
+func c04Overlap() string {
+	datatype.Available["Verif-Reenter"] = datatype.TypeID(203)
+	datatype.Decoder[datatype.TypeID(203)] = func(b []byte) (datatype.Type, error) {
+		if f := c04Reenter; f != nil {
+			c04Reenter = nil
+			f()
+		}
+		return datatype.OctetString(append([]byte{}, b...)), nil
+	}
+	defer func() { delete(datatype.Available, "Verif-Reenter"); delete(datatype.Decoder, datatype.TypeID(203)); c04Reenter = nil }()
+	p, err := dict.NewParser()
+	if err == nil {
+		err = p.Load(strings.NewReader(`<?xml version="1.0" encoding="UTF-8"?><diameter><application id="0" name="Overlap">
+<command code="9900" short="OV" name="Overlap-Test"><request><rule avp="Box" required="false"/></request><answer><rule avp="Box" required="false"/></answer></command>
+<avp name="Box" code="9100" must="M"><data type="Grouped"/></avp>
+<avp name="Reenter" code="9001" must="M"><data type="Verif-Reenter"/></avp>
+<avp name="Plain" code="9002" must="M"><data type="UTF8String"/></avp></application></diameter>`))
+	}
+	if err != nil {
+		return ""
+	}
+	nest := func(depth int, inner refcodec.Node) []byte {
+		n := inner
+		for d := 0; d < depth; d++ {
+			n = refcodec.Node{Code: 9100, Flags: 0x40, Group: true, Children: []refcodec.Node{n, {Code: 9002, Flags: 0x40, Payload: []byte("x")}}}
+		}
+		return refcodec.EncodeMessage(refcodec.Header{Version: 1, Flags: 0x80, Code: 9900, HbH: 1, E2E: 1}, []refcodec.Node{n})
+	}
+	depthOf := func(m *diam.Message) int {
+		d := 0
+		avps := m.AVP
+		for len(avps) > 0 {
+			g, ok := avps[0].Data.(*diam.GroupedAVP)
+			if !ok {
+				break
+			}
+			d++
+			avps = g.AVP
+		}
+		return d
+	}
+	for _, da := range []int{1, 40, 300} {
+		for _, db := range []int{1, 40, 300} {
+			wa := nest(da, refcodec.Node{Code: 9001, Flags: 0x40, Payload: []byte("a")})
+			wb := nest(db, refcodec.Node{Code: 9002, Flags: 0x40, Payload: []byte("b")})
+			var mb *diam.Message
+			var eb error
+			c04Reenter = func() { mb, eb = diam.ReadMessage(bytes.NewReader(wb), p) }
+			ma, ea := diam.ReadMessage(bytes.NewReader(wa), p)
+			switch {
+			case c04Reenter != nil:
+				return "harness: the application decoder was never called"
+			case eb != nil:
+				return fmt.Sprintf("a well-formed message nested %d groups deep, decoded while the decode of another message (nested %d deep) was in progress, is rejected: %v", db, da, eb)
+			case ea != nil:
+				return fmt.Sprintf("a well-formed message nested %d groups deep is rejected after another message (nested %d deep) was decoded in the middle of its decode: %v", da, db, ea)
+			case depthOf(ma) != da || depthOf(mb) != db:
+				return fmt.Sprintf("overlapping decodes of messages nested %d and %d deep came out nested %d and %d deep", da, db, depthOf(ma), depthOf(mb))
+			}
+		}
+	}
+	return ""
+}
+
 func runC04(ctx *ev.Ctx) {
+	if ctx.Mine() {
+		ctx.Eval(ev.HS("overlapping decodes"))
+		if what := c04Overlap(); what != "" {
+			ctx.Report("", generalise(what), what, C04Case{Config: "overlapping-decodes"})
+		}
+	}
 	if ctx.Mine() {
 		ctx.Eval(ev.HS("faulty application decoder"))
 		if what := c04FaultyDecoder(); what != "" {
@@ -674,7 +750,7 @@ func runC04(ctx *ev.Ctx) {
 			ctx.Report("", generalise(what), what+" | case: "+mc.Desc(), mc)
 		}
 	})
-	ctx.Rule += " An application-defined data type whose decoder faults on short payloads, at top level and inside a group: never a message returned without error and with fewer AVPs. An all-zero AVP header (code 0, Length 0) behind complete AVPs, alone / as a zero-filled tail / in front of well-formed AVPs / inside a group. Every body is read under seven further command-flag bytes of the message header (answer, error answer, proxiable, retransmitted, reserved bits): same verdict and same AVPs. Leaves and vendor-less groups sent with the V flag and a Vendor-Id field of zero (12-byte header), at top level and inside a group. Groups defined by different applications of the message's parent chain (two per application) nested in each other to depth 3 in both directions. The code of every vendor-less Grouped AVP also under a foreign vendor id (a leaf), directly after / before / inside the real group. Wide containers: a grouped AVP behind 0..257 sibling members (counts around 16, 32, 64 and 256), at top level, inside a group and two levels down. Every accepted body is read a second time overlapping with a complete read from another source, after an oversize message. Every top-level record of every accepted body is also decoded with the exported AVP.DecodeFromBytes into ONE AVP value that held a vendor-specific AVP first and then every earlier record, and compared with a fresh decode of the same bytes."
+	ctx.Rule += " Two overlapping decodes (the second runs inside an application decoder at the innermost AVP of the first) of messages nested 1 / 40 / 300 groups deep: both whole. An application-defined data type whose decoder faults on short payloads, at top level and inside a group: never a message returned without error and with fewer AVPs. An all-zero AVP header (code 0, Length 0) behind complete AVPs, alone / as a zero-filled tail / in front of well-formed AVPs / inside a group. Every body is read under seven further command-flag bytes of the message header (answer, error answer, proxiable, retransmitted, reserved bits): same verdict and same AVPs. Leaves and vendor-less groups sent with the V flag and a Vendor-Id field of zero (12-byte header), at top level and inside a group. Groups defined by different applications of the message's parent chain (two per application) nested in each other to depth 3 in both directions. The code of every vendor-less Grouped AVP also under a foreign vendor id (a leaf), directly after / before / inside the real group. Wide containers: a grouped AVP behind 0..257 sibling members (counts around 16, 32, 64 and 256), at top level, inside a group and two levels down. Every accepted body is read a second time overlapping with a complete read from another source, after an oversize message. Every top-level record of every accepted body is also decoded with the exported AVP.DecodeFromBytes into ONE AVP value that held a vendor-specific AVP first and then every earlier record, and compared with a fresh decode of the same bytes."
 	ctx.Assume = []string{"reference framer (refcodec.Frame) walks by pad4(declared length) only", "a by-Length decoder accepts a sequence iff it accepts each record on its own (used to tell a legitimate value rejection from a framing error)"}
 }
 
@@ -685,6 +761,9 @@ func replayC04(ctx *ev.Ctx, raw json.RawMessage) string {
 	}
 	if cs.Config == "faulty-decoder" {
 		return c04FaultyDecoder()
+	}
+	if cs.Config == "overlapping-decodes" {
+		return c04Overlap()
 	}
 	fmt.Println("  case:", cs.Desc())
 	fmt.Printf("  body: %x\n", cs.body())
